@@ -35,7 +35,8 @@ IMPL_TIMEOUT = 1500
 COQ_TIMEOUT = 3000
 RULE = ("a case = one reaction network (list of reactions with ids, rules, coefficient maps; molecule labels; kept isolated "
         "species) + a list of views to round-trip (bipartite export flags / string printer+parser flags / species graph), or a "
-        "batch of fuzzed texts for RXNSide.from_str / add_rxn_from_str / parse_rxns; non-trivial = at least one reaction and at "
+        "batch of fuzzed texts for RXNSide.from_str / add_rxn_from_str / parse_rxns, or (kinds bip-edit / sg-edit) a list of "
+        "export -> delete attributes from the exported graph -> import steps; non-trivial = at least one reaction and at "
         "least one round trip whose reconstruction succeeded, or a fuzz batch with at least one successfully parsed non-empty side; "
         "distinct = distinct (network, views) JSON")
 EXHAUSTIVE = {"quick": True, "thorough": True}
@@ -45,12 +46,14 @@ EXPLANATION = ("Exhaustive sub-spaces: every set of <=2 reactions out of the 90 
                "label triple and flag combination per network; in the quick tier a pair goes through one of the three "
                "views, in rotation, everything else through all three); every text of length <=4 (quick) / <=5 (thorough) over the alphabet "
                "{A,2,0,space,+,*,_} through RXNSide.from_str; every bipartite export flag combination on a fixed set of networks. "
+               "Round 5: imports of exported graphs after the caller deleted attributes (kind / label per node class, stoich, role, mol, marker; "
+               "for the species graph label / kind / mol / rules / per-reaction maps / legacy values): the importers' fall-backs on real exports. "
                "Everything else (random networks <=8 species / 10 reactions, fuzzed reaction lines, adversarial labels) is seeded random. "
                "Theorems: see coq/props/C16.v (round trips proved for all networks satisfying the stated decidable preconditions).")
 TRUSTED_BASE = [
     "Coq 8.16.1 kernel + vm_compute (no native_compute)",
     "std++ 1.8.0 gmap/gset/pretty (axiom-free)",
-    "hand-written model coq/model/C16_Model.v (+ the store model C15_Model.v it builds on) tied to "
+    "hand-written model coq/model/C16_Model.v + coq/model/C16_Edit.v (+ the store model C15_Model.v they build on) tied to "
     "synkit/CRN/Hypergraph/{conversion,rxn,hypergraph}.py by the per-run correspondence",
     "harness encoders harness/props/C16.py (network / flags -> Gallina literal; nx graphs, strings, networks -> tok)",
     "networkx DiGraph add_node/add_edge attribute-merge semantics, in_edges/out_edges; CPython str.strip/split/replace, "
@@ -59,13 +62,16 @@ TRUSTED_BASE = [
 ASSUMPTIONS = [
     "labels, ids, rules, molecule labels are ASCII strings (Python str methods and re classes treat further Unicode code points "
     "as digits/whitespace; the only non-ASCII text is the printer's own empty-side sign U+2205, modelled as its UTF-8 bytes)",
-    "bipartite_to_hypergraph / species_graph_to_hypergraph are modelled on graphs that carry the edge-id attribute / via sets "
-    "(otherwise the code synthesises ids from hash(); such imports are not generated)",
+    "bipartite_to_hypergraph / species_graph_to_hypergraph are modelled on graphs that carry the edge-id attribute / via sets: where "
+    "the code has to synthesise an id from hash() for a reaction it stores, or (species graph without per-reaction maps) keeps the first "
+    "of several different coefficients in arc-iteration order, the model reports EUnmodelled and the adapter reports the same code 9 "
+    "(it detects the synthesised id / the order dependence on the graph it passes in)",
     "species_graph_to_hypergraph picks next(iter(rules)) from a Python set: modelled as an arbitrary choice function, "
     "observed only when the merged rule set is a singleton (membership checked otherwise)",
 ]
 TESTED_NOT_PROVED = [
-    "behaviour of the flag combinations that do not export ids or coefficients, of RXNSide.from_str / add_rxn_from_str / parse_rxns on "
+    "behaviour of the flag combinations that do not export ids, of edited graphs outside the premises of the two *_edited theorems "
+    "(deleted coefficients / roles, prefixes that do not separate the node classes, integer ids without kind), of RXNSide.from_str / add_rxn_from_str / parse_rxns on "
     "arbitrary (non-printed) text, and of all converters outside the theorem preconditions: model = implementation on every generated case",
     "rule names after a species-graph round trip (membership in the merged rule set is compared, not proved)",
 ]
@@ -1382,7 +1388,11 @@ LEVEL_TEXT = ("Machine-checked proof (Coq, axiom-free) over an executable model 
               "rebuilt network). Round 3: parse_rxns with explicit per-line rules is modelled (C16_parse_plain_is_items, "
               "C16_strings_roundtrip_explicit_rules, C16_strings_roundtrip_prefer_suffix), the string round trip keeps the reaction "
               "sequence (C16_strings_roundtrip_order), the premise survives in-place edits (C16_edited_wf), and the facades' defaults are "
-              "Gallina definitions (C16_as_bipartite_defaults). The model is tied to the Python code by comparing, on every run, the "
+              "Gallina definitions (C16_as_bipartite_defaults). Round 5: C16_bipartite_roundtrip_any_stoich (every flag combination that exports the ids: "
+              "without coefficients exactly the supports come back), C16_bipartite_roundtrip_edited / C16_untagged_default_prefixes (the round trip "
+              "survives the deletion of every attribute the importer can re-derive - kind from the id prefixes, label from the node id / default rule, "
+              "mol, marker - with each premise shown necessary) and C16_species_graph_roundtrip_edited (ids and coefficients come back from via + "
+              "per-reaction maps alone). The model is tied to the Python code by comparing, on every run, the "
               "intermediate view (all nodes, arcs and attributes, or the printed lines) and the reconstructed network for thousands of "
               "generated networks and flag combinations (exhaustive small scope + random + adversarial + fuzzed parser input), including "
               "HISTORIES: repeated round trips on one shared network object while the caller edits, in place, every result it was handed, "
